@@ -479,6 +479,13 @@ def run(chk):
     drv = V.build_driver("sysdrv", chk.bindir)
     tables = {t["name"]: t for t in S.load_tables()}
     only = os.environ.get("VERIF_SYSTEMS")
+    if getattr(chk, "replay", None):
+        # a replay file names the system, tier and seed; the drivers are deterministic in the seed, so re-running that
+        # system's plan re-executes the recorded case against the current tree
+        import json
+        rp = json.load(open(chk.replay))
+        only = rp.get("case", {}).get("system") or only
+        chk.seed, chk.tier = int(rp.get("seed", chk.seed)), rp.get("tier", chk.tier)
     systems, jobs = {}, []
     for name in SYSTEMS:
         if only and name not in only.split(","):
